@@ -4,7 +4,7 @@
 From V.lib Require Import Base.
 From V.c13 Require Import C13Spec C13Model.
 From V.c15 Require Import C15Model C15Spec C15HevcModel C15HevcSpec C15HevcConfModel C15HevcConfSpec
-  C15HevcConfProofs C15HevcConfEncProofs C15HevcConfExamples.
+  C15HevcConfProofs C15HevcConfEncProofs C15HevcConfRtProofs C15HevcConfSpsProofs C15HevcConfExamples.
 From V.c16 Require Import C16ConfRecModel.
 
 (* CreateHEVCDecConfRec: the record carries profile space / tier / idc, the 32 compatibility flags, the
@@ -29,6 +29,14 @@ Example C15_hevc_confrec_create_hyp :
         1; 34; 2; 4; 68; 1; 193; 114; 3; 68; 1; 0]%Z.
 Proof. vm_compute. repeat split; reflexivity. Qed.
 
+(* the same with the real SPS parser (C15_hevc_sps discharges the hypothesis) *)
+Theorem C15_hevc_confrec_create_sps : forall v vps sps_rest pps vc sc pc inc,
+  hsps_valid v = true ->
+  hconf_create hparse_sps_br vps (hnalu_sps v :: sps_rest) pps vc sc pc inc
+  = Ok (expected_hconf v vps (hnalu_sps v :: sps_rest) pps vc sc pc inc).
+Proof. exact hevc_confrec_create_sps. Qed.
+Print Assumptions C15_hevc_confrec_create_sps.
+
 (* DecConfRec.Encode / Size: Go's byte arithmetic writes the bit fields of the syntax table of
    14496-15 8.3.3.1.2 (spec_hvcc), and Size is the number of bytes written.  (The nalus_fit hypotheses
    are not used by the proof: u(16) of a count and Go's uint16() truncate alike.) *)
@@ -47,6 +55,40 @@ Example C15_hevc_confrec_encode_hyp :
      = [1; 34; 96; 0; 0; 0; 176; 0; 0; 16; 0; 0; 93; 240; 0; 252; 253; 250; 250; 0; 0; 3; 3;
         160; 0; 1]
   /\ lenN (spec_hvcc ex_hconf_sps ex_hconf_vps [hnalu_sps ex_hconf_sps] ex_hconf_pps true false true true) = 83.
+Proof. vm_compute. repeat split; reflexivity. Qed.
+
+(* DecodeHEVCDecConfRec (Encode r) = r for every well-formed record (hevc_rec_wf: field ranges of the
+   record layout, at most 255 arrays whose NAL units fit the 16-bit count / length fields); t = number of
+   loop iterations of the decoder model. *)
+Theorem C15_hevc_confrec_roundtrip : forall r,
+  hevc_rec_wf r = true -> exists t, hevc_decode_dec_conf_rec (hconf_encode r) = Ok (r, t).
+Proof. exact hevc_confrec_roundtrip. Qed.
+Print Assumptions C15_hevc_confrec_roundtrip.
+
+(* every record built by CreateHEVCDecConfRec from a valid SPS is well formed ... *)
+Theorem C15_hevc_confrec_created_wf : forall v vps sps pps vc sc pc inc,
+  hsps_valid v = true -> hconf_depths_fit v = true ->
+  nalus_fit vps = true -> nalus_fit sps = true -> nalus_fit pps = true ->
+  hevc_rec_wf (expected_hconf v vps sps pps vc sc pc inc) = true.
+Proof. exact expected_hconf_wf. Qed.
+Print Assumptions C15_hevc_confrec_created_wf.
+
+(* ... hence decoding the bytes of the standard's layout gives back the SPS values and NAL units *)
+Theorem C15_hevc_confrec_decode_created : forall v vps sps pps vc sc pc inc,
+  hsps_valid v = true -> hconf_depths_fit v = true ->
+  nalus_fit vps = true -> nalus_fit sps = true -> nalus_fit pps = true ->
+  exists t, hevc_decode_dec_conf_rec (spec_hvcc v vps sps pps vc sc pc inc)
+            = Ok (expected_hconf v vps sps pps vc sc pc inc, t).
+Proof. exact hevc_confrec_roundtrip_created. Qed.
+Print Assumptions C15_hevc_confrec_decode_created.
+
+Example C15_hevc_confrec_roundtrip_hyp :
+  let r := expected_hconf ex_hconf_sps ex_hconf_vps [hnalu_sps ex_hconf_sps] ex_hconf_pps true false true true in
+  hevc_rec_wf r = true /\ lenN (hr_arrays r) = 3
+  /\ hevc_decode_dec_conf_rec (hconf_encode r) = Ok (r, 7)
+  /\ hevc_rec_wf (mkHevcRec 1 3 true 31 4294967295 281474976710655 255 4095 3 3 7 7 65535 3 7 1 3
+                            [(255, [[1; 2; 3]; []]); (0, [])]) = true
+  /\ hevc_rec_wf (mkHevcRec 1 0 false 1 0 0 0 0 0 0 8 0 0 0 0 0 3 []) = false.
 Proof. vm_compute. repeat split; reflexivity. Qed.
 
 (* hevc.CodecString: sample entry, profile space letter and profile idc, the compatibility flags in
